@@ -269,10 +269,20 @@ def add_beams(rng, w, nodes):
         nd = nodes[i]
         if "tuplet" in nd:
             r = rng.random()
-            if r < w["beam"] / 2:
+            b = w["beam"]
+            items = nd["items"]
+            if r < b * 0.5:        # beam > tuplet > note
                 out.append({"beam": [nd]})
-            elif r < w["beam"]:
-                out.append({"tuplet": nd["tuplet"], "items": [{"beam": nd["items"]}]})
+            elif r < b:            # tuplet > beam > note
+                out.append({"tuplet": nd["tuplet"], "items": [{"beam": items}]})
+            elif r < b * 1.4 and len(items) >= 3:   # tuplet > (beam over some of the notes, note)
+                k = rng.randint(2, len(items) - 1)
+                out.append({"tuplet": nd["tuplet"], "items": ([{"beam": items[:k]}] + items[k:]) if rng.random() < 0.5 else
+                            (items[:len(items) - k] + [{"beam": items[len(items) - k:]}])})
+            elif r < b * 1.7 and i + 1 < len(nodes) and "k" in nodes[i + 1] and nodes[i + 1].get("v", 0) >= 8 and nodes[i + 1]["k"] != "m":
+                out.append({"beam": [nd, nodes[i + 1]]})   # beam > (tuplet > note, note)
+                i += 2
+                continue
             else:
                 out.append(nd)
             i += 1
@@ -309,6 +319,8 @@ def gen_doc(rng, fmt, w=None, nmeas=None, nstaves=None):
         o["group"] = rng.choice(["flat", "nested"])
         o["ppq"] = rng.choice([None, None, None, "declared"])
         o["layer_n"] = rng.random() < 0.8
+        # @n of the first / second layer of a staff: the voice number is the layer's n, not its position
+        o["layer_ns"] = rng.choice([[1, 2], [1, 2], [2, 1], [3, 7], [5, 2], [2, 4]])
         o["change_as"] = rng.choice(["attr", "child"])
         o["tie_attr_too"] = rng.random() < 0.5
         o["ext"] = ".mei"
@@ -317,6 +329,13 @@ def gen_doc(rng, fmt, w=None, nmeas=None, nstaves=None):
         o["ext"] = rng.choice([".krn", ".krn", ".kern"])
         o["final_barline"] = rng.random() < 0.7
         o["beam_marks"] = rng.random() < 0.5
+        # all spines carry the same *part interpretation: ONE part, spines = staves, voices numbered across the spines
+        o["same_part"] = nst > 1 and rng.random() < w.get("same_part", 0.3)
+        if o["same_part"]:
+            o["staff_line"] = True
+        if o["staff_line"] and nst > 1 and rng.random() < 0.5:
+            for k_, st in enumerate(staves):   # kern spines usually run from the lowest staff to the highest
+                st["n"] = nst - k_
         if not o["staff_line"]:
             for st in staves:  # without a *staff interpretation every spine is staff 1 of its own part
                 st["n"] = 1
@@ -579,7 +598,7 @@ def write_mei(doc):
         for si, st in enumerate(doc["staves"]):
             lays = []
             for li, layer in enumerate(m["content"][si]):
-                la = ' n="%d"' % (li + 1) if o["layer_n"] else ""
+                la = ' n="%d"' % layer_voice(doc, li) if o["layer_n"] else ""
                 lays.append('<layer xml:id="%s"%s>%s</layer>' % (nid("l"), la, nodes_xml(layer, si, li, None)))
             body.append('<staff xml:id="%s" n="%d">%s</staff>' % (nid("s"), st["n"], "".join(lays)))
         meas_xml.append((m, pre, a, body))
@@ -683,6 +702,8 @@ def write_kern(doc):
     def row(cells):
         lines.append("\t".join(cells))
     row(["**kern"] * nst)
+    if o.get("same_part"):
+        row(["*part1"] * nst)
     if o["staff_line"]:
         row(["*staff%d" % st["n"] for st in doc["staves"]])
     row(["*clef%s%d" % tuple(st["clef"]) for st in doc["staves"]])
@@ -834,7 +855,7 @@ def load(path, loader="load_score"):
         where = "%s:%d %s" % (os.path.basename(tb[-1].filename), tb[-1].lineno, tb[-1].name)
         return "err", "%s: %s @ %s" % (type(ex).__name__, str(ex)[:200], where)
     parts = list(sc.parts)
-    if path.endswith(".mei"):
+    if path.endswith(".mei"):   # the harness names MEI documents *.mei, kern documents *.krn / *.kern
         obs = [observe_part(p) for p in parts]
     else:
         obs = [observe_part(p) for p in parts[::-1]]
@@ -843,8 +864,51 @@ def load(path, loader="load_score"):
     return "ok", obs
 
 
+# file names with several dots / with the extension of another reader before the last dot: the reader is chosen
+# from the (last) extension only
+DOTTED_NAMES = {"mei": ["doc.v2", "a.b.c", "doc.krn", "doc.xml", "doc.kern.mid"],
+                "kern": ["doc.v2", "a.b.c", "doc.mei", "doc.musicxml", "doc.mei.xml"]}
+
+
+def kern_spine_tokens(text, nst):
+    """Independent reading of the spine structure of a written kern document: per spine, its cells line by line
+    coded 0 other / 1 '*^' / 2 '*v' (the widths follow what the tokens denote)."""
+    width = [1] * nst
+    out = [[] for _ in range(nst)]
+    for line in text.split("\n"):
+        if not line or line.startswith("!"):
+            continue
+        cells = line.split("\t")
+        if len(cells) != sum(width):
+            raise RuntimeError("harness kern reader: %d cells for widths %r in line %r" % (len(cells), width, line))
+        k = 0
+        for s_ in range(nst):
+            mine = cells[k:k + width[s_]]
+            k += width[s_]
+            out[s_].append([1 if c == "*^" else 2 if c == "*v" else 0 for c in mine])
+            w2 = width[s_] + mine.count("*^")
+            run = 0
+            for c in mine + [None]:
+                if c == "*v":
+                    run += 1
+                else:
+                    if run:
+                        w2 -= run - 1
+                    run = 0
+            width[s_] = w2
+    return out
+
+
 def a0(x):
     return 0 if x is None else int(x)
+
+
+def layer_voice(doc, li):
+    """Voice number the li-th layer / sub-spine of a staff is expected to load as."""
+    o = doc["opts"]
+    if doc["fmt"] == "mei" and o.get("layer_n") and o.get("layer_ns"):
+        return o["layer_ns"][li]
+    return li + 1
 
 
 def expected_rows(doc, den, si):
@@ -854,10 +918,10 @@ def expected_rows(doc, den, si):
     for li in range(2):
         for e in den["layers"][si][li]:
             if e["k"] in ("r", "m"):
-                rows.append((li + 1, stn, "r", e["onset"], e["dur"], None, 0, None))
+                rows.append((layer_voice(doc, li), stn, "r", e["onset"], e["dur"], None, 0, None))
             else:
                 for p in e["p"]:
-                    rows.append((li + 1, stn, "g" if e["g"] else "n", e["onset"], e["dur"], p[0], a0(p[1]), p[2]))
+                    rows.append((layer_voice(doc, li), stn, "g" if e["g"] else "n", e["onset"], e["dur"], p[0], a0(p[1]), p[2]))
     return rows
 
 
@@ -872,6 +936,10 @@ def compare(doc, obs):
     nst = len(doc["staves"])
     if len(obs) != nst:
         return [("parts", "expected %d parts (one per %s), loaded %d" % (nst, "staffDef" if doc["fmt"] == "mei" else "spine", len(obs)))]
+    if obs and obs[0].get("stray"):
+        n = obs[0]["stray"][0]
+        bad.append(("voice/staff", "spines of one part: %d loaded elements carry a voice number that belongs to no spine, e.g. voice %s staff %s at tick %s"
+                    % (len(obs[0]["stray"]), n["voice"], n["staff"], n["start"])))
     for si in range(nst):
         ob = obs[si]
         if len(set(ob["divs"])) != 1:
@@ -909,10 +977,10 @@ def compare(doc, obs):
         for li in range(2):
             for on, du, ps in joined(den["layers"][si][li]):
                 for p in ps:
-                    expj.append((li + 1, on, du, midi(p)))
+                    expj.append((layer_voice(doc, li), on, du, midi(p)))
             for e in den["layers"][si][li]:
                 if e["g"]:
-                    expj.append((li + 1, e["onset"], F(0), midi(e["p"][0])))
+                    expj.append((layer_voice(doc, li), e["onset"], F(0), midi(e["p"][0])))
         expj.sort()
         gotj = sorted((n["voice"], F(n["start"], dv), F(n["dur_tied"], dv), 12 * (n["octave"] + 1) + BASE_PC[n["step"].upper()] + a0(n["alter"]))
                       for n in ob["notes"] if n["kind"] != "r" and not n["tp"])
@@ -1033,8 +1101,12 @@ def gen_xdoc(rng, fmt):
         w.update({"tuplet": 0.45, "chord": 0.35})
     elif r < 0.55:
         w.update({"chord": 0.5, "tuplet": 0.1})
+    if rng.random() < (0.3 if fmt == "mei" else 0.06):   # kern: known finding C19-K3
+        w["grace"] = 0.08
     nst = rng.choice([1, 2, 2, 2, 3, 3])
-    doc = gen_doc(rng, "kern" if fmt == "kern" else "mei", w, nstaves=nst)
+    if fmt == "kern":   # save_kern walks every class at every time point: keep the parts small
+        w["small"] = 0.15
+    doc = gen_doc(rng, "kern" if fmt == "kern" else "mei", w, nstaves=nst, nmeas=rng.randint(1, 3) if fmt == "kern" else None)
     for i, st in enumerate(doc["staves"]):
         st["n"] = i + 1
     decorate_export(rng, doc, fmt)
@@ -1122,16 +1194,19 @@ def decorate_export(rng, doc, fmt):
                 # may be split between the staves
                 n = len(evs)
                 durs = [d for _, _, d in evs]
-                k = rng.randrange(n)
-                suffix = rng.random() < 0.5
-                block = list(range(k, n)) if suffix else list(range(0, k + 1))
-                rest = [i for i in range(n) if i not in block]
-                bnd = block[0] if suffix else block[-1]
-                split = evs[bnd][0]["k"] == "c" and rng.random() < 0.6
-                gap_other = sum((durs[i] for i in rest), F(0))
-                home = rest + ([bnd] if split else [])
-                gap_home = sum((durs[i] for i in range(n) if i not in home), F(0))
-                if (gap_other and gap_other not in PLAIN) or (home and gap_home and gap_home not in PLAIN):
+                for _try in range(6):
+                    k = rng.randrange(n)
+                    suffix = rng.random() < 0.5
+                    block = list(range(k, n)) if suffix else list(range(0, k + 1))
+                    rest = [i for i in range(n) if i not in block]
+                    bnd = block[0] if suffix else block[-1]
+                    split = evs[bnd][0]["k"] == "c" and rng.random() < 0.6
+                    gap_other = sum((durs[i] for i in rest), F(0))
+                    home = rest + ([bnd] if split else [])
+                    gap_home = sum((durs[i] for i in range(n) if i not in home), F(0))
+                    if not ((gap_other and gap_other not in PLAIN) or (home and gap_home and gap_home not in PLAIN)):
+                        break
+                else:
                     continue
                 ot = other_staff(si, v)
                 for i in block:
@@ -1294,7 +1369,11 @@ def build_part(doc):
                 else:
                     for j, p in enumerate(e["p"]):
                         k += 1
-                        o_ = S.Note(step=p[0], octave=p[2], alter=p[1], id="n%d" % k, voice=voice, staff=sts[j], symbolic_duration=dict(sd))
+                        if e["g"]:
+                            o_ = S.GraceNote(grace_type="acciaccatura" if k % 2 else "appoggiatura", step=p[0], octave=p[2], alter=p[1],
+                                             id="n%d" % k, voice=voice, staff=sts[j], symbolic_duration=dict(sd))
+                        else:
+                            o_ = S.Note(step=p[0], octave=p[2], alter=p[1], id="n%d" % k, voice=voice, staff=sts[j], symbolic_duration=dict(sd))
                         todo.append((a, j, voice, o_, b))
                         these.append(o_)
                         rows["n%d" % k] = (F(a, divs), F(b - a, divs), p[0], a0(p[1]), p[2], sts[j])
@@ -1368,7 +1447,8 @@ def export_roundtrip(doc, fmt, want_obs=False):
         dv = int(p._quarter_durations[0])
         for n in p.iter_all(S.Note, include_subclasses=True):
             got.append((n.id, F(int(n.start.t), dv), F(int(n.end.t - n.start.t), dv), n.step.upper(), a0(n.alter), n.octave, n.staff))
-            obs.append((pi, n.id, n.voice, int(n.start.t), int(n.end.t), dv, n.staff))
+            if not isinstance(n, S.GraceNote):
+                obs.append((pi, n.id, n.voice, int(n.start.t), int(n.end.t), dv, n.staff))
     with open(path) as f:
         text = f.read()
     return ("ok", rows, got, text, (len(sc.parts), obs))
@@ -1392,9 +1472,18 @@ def export_diff(fmt, rows, got):
         if a != b:
             from collections import Counter
             ca, cb = Counter(a), Counter(b)
-            for x in sorted((ca - cb).elements()):
+            only_a, only_b = sorted((ca - cb).elements()), sorted((cb - ca).elements())
+            for x in list(only_a):
+                # pair with the loaded row that agrees on most fields (pitch first), to name what changed
+                cands = [y for y in only_b if y[2:5] == x[2:5]] or []
+                if cands:
+                    y = max(cands, key=lambda y: sum(1 for j in (0, 1, 5) if x[j] == y[j]))
+                    only_b.remove(y)
+                    only_a.remove(x)
+                    bad.append((None, x, [y]))
+            for x in only_a:
                 bad.append((None, x, None))
-            for x in sorted((cb - ca).elements()):
+            for x in only_b:
                 bad.append((None, None, [x]))
     return bad
 
@@ -1432,6 +1521,8 @@ def xfeatures(doc):
                 for o, t, _ in evs:
                     if o.get("mrest"):
                         f.add("measure_rest")
+                    if o.get("g"):
+                        f.add("grace")
                     if o["k"] == "r":
                         continue
                     sts = o.get("st") or [si + 1]
@@ -1492,7 +1583,7 @@ def c_observed(doc, obs):
         dv = ob["divs"][0]
         lays, joins = [], []
         for li in range(2):
-            ns = [n for n in ob["notes"] if n["voice"] == li + 1]
+            ns = [n for n in ob["notes"] if n["voice"] == layer_voice(doc, li)]
             rows = sorted({(n["start"], 0 if n["kind"] == "g" else 1, n["end"]) for n in ns})
             lays.append(clist([ctuple([cq(F(a, dv)), cq(F(b - a, dv)), cz(b - a)]) for a, _, b in rows]))
             jr = sorted({(n["start"], n["dur_tied"]) for n in ns if n["kind"] == "n" and not n["tp"]})
@@ -1528,6 +1619,17 @@ def features(doc):
                 for nd in layer:
                     if "beam" in nd:
                         f.add("beam")
+                        if any("tuplet" in x for x in nd["beam"]):
+                            f.add("beam>tuplet")
+                            if len(nd["beam"]) > 1:
+                                f.add("beam>(tuplet,note)")
+                    if "tuplet" in nd:
+                        if any("beam" in x for x in nd["items"]):
+                            f.add("tuplet>beam")
+                            if len(nd["items"]) > 1:
+                                f.add("tuplet>(beam,note)")
+                        if any(x.get("k") == "c" for x in _walk(nd["items"])):
+                            f.add("tuplet>chord")
                 for e in flat(layer):
                     f.add({"n": "note", "c": "chord", "r": "rest", "m": "mrest", "s": "space"}[e["k"]])
                     if e.get("d"):
@@ -1545,7 +1647,15 @@ def features(doc):
     for k, v in doc["opts"].items():
         if isinstance(v, (str, bool)) and k not in ("ext",):
             f.add("%s=%s" % (k, v))
+    if doc["fmt"] == "mei" and doc["opts"].get("layer_n") and doc["opts"].get("layer_ns") not in (None, [1, 2]):
+        f.add("layer_n_differs_from_position")
+    if doc["fmt"] == "kern" and [st["n"] for st in doc["staves"]] != list(range(1, len(doc["staves"]) + 1)):
+        f.add("staff_numbers_not_in_spine_order")
     return f
+
+
+def has_grace(doc):
+    return any(e.get("g") for m in doc.get("measures", []) for st in m["content"] for layer in st for e in _walk(layer))
 
 
 def has_tied_chord(doc):
@@ -1558,16 +1668,46 @@ def check_import(doc, loader="load_score", name="doc"):
     st, obs = load(path, loader)
     if st == "err":
         return "err", obs, [("load", obs)], text
+    if doc["opts"].get("same_part"):
+        if len(obs) != 1:
+            return "ok", obs, [("parts", "all spines carry *part1: expected one part, loaded %d" % len(obs))], text
+        obs = split_same_part(doc, obs[0])
     return "ok", obs, compare(doc, obs), text
 
 
-def shrink_import(doc, loader, clauses):
+def split_same_part(doc, ob):
+    """kern spines of ONE part: the loader numbers the voices across all sub-spines from left to right; the notes
+    are regrouped per spine by these voice numbers (and renumbered from 1) so that the per-staff comparison applies;
+    a note with a voice number outside every spine's range is reported."""
+    out = []
+    off = 0
+    claimed = set()
+    for si in range(len(doc["staves"])):
+        width = max(len(m["content"][si]) for m in doc["measures"])
+        o2 = dict(ob)
+        o2["notes"] = []
+        for i, n in enumerate(ob["notes"]):
+            if n["voice"] is not None and off < n["voice"] <= off + width:
+                n2 = dict(n)
+                n2["voice"] = n["voice"] - off
+                o2["notes"].append(n2)
+                claimed.add(i)
+        o2.pop("na", None)   # the note array of the whole part is not split
+        out.append(o2)
+        off += width
+    stray = [n for i, n in enumerate(ob["notes"]) if i not in claimed]
+    if stray:
+        out[0]["stray"] = stray
+    return out
+
+
+def shrink_import(doc, loader, clauses, fname="shrink"):
     """ddmin over measures, then staves (kern documents keep whole measures: spines must stay aligned)."""
     import copy
 
     def fails(d):
         try:
-            st, _, bad, _ = check_import(d, loader, "shrink")
+            st, _, bad, _ = check_import(d, loader, fname)
         except Exception:
             return False
         return bool(bad) and bool({b[0] for b in bad} & clauses)
@@ -1620,6 +1760,10 @@ def register_matchers(ctx):
         r.get("dir") == "import" and r.get("doc", {}).get("fmt") == "kern"
         and set(r.get("clauses", [])) <= {"ties", "note_array"} and bool(r.get("clauses"))
         and has_tied_chord(r["doc"]))
+    # C19-K3: save_kern writes a grace note into the token of the note it precedes (a chord), and marks acciaccaturas
+    # with 'p', which load_kern does not read as a grace note
+    ctx.matchers["C19-K3"] = lambda r: (
+        r.get("dir") == "export" and r.get("fmt") == "kern" and has_grace(r.get("doc", {})))
     # C19-K2: save_kern writes one spine per (voice, staff) pair and fills only the time before the first / after the
     # last element of a pair in a measure, with one rest: a pair with a hole inside a measure, or with missing time
     # that is not a single written value, cannot be written (the part shape decides, not the failure text)
@@ -1651,7 +1795,8 @@ def run(ctx):
                 "part, 70% onto the staff numbered like the voice when there is one; kern: a prefix or suffix of a measure, the chord "
                 "at the boundary possibly split, such that each (voice, staff) pair stays one run with a single written value missing "
                 "before/after; 6% of the kern parts are placed freely -> known finding C19-K2), ties, dots, tuplets (also crossing "
-                "staves), measure-filling rests, pickups, objects added layer by layer / by time / with simultaneous chords of different "
+                "staves), grace notes (30% of the MEI parts; 6% of the kern parts -> known finding C19-K3), measure-filling rests, "
+                "pickups, objects added layer by layer / by time / with simultaneous chords of different "
                 "voices interleaved; save_mei / save_kern, load_score; every Note compared on (onset, duration, step, alter, octave, "
                 "staff): MEI id by id (ids survive), kern as a multiset.  Distinct non-trivial export case = distinct exported file with > 1 note.")
     ctx.trusted = ["Coq 8.16.1 kernel incl. vm_compute",
@@ -1663,16 +1808,17 @@ def run(ctx):
                        "kern float arithmetic (isclose/ceil) is modelled in exact rationals; a float artefact would show as a correspondence failure",
                        "a zero-length measure after the final kern barline is ignored",
                        "export: parts are gap-free per voice and every symbolic duration matches its tick duration (the writers take the "
-                       "written value from symbolic_duration); no grace notes; rests are not compared (the property names notes)"]
+                       "written value from symbolic_duration); rests are not compared (the property names notes)"]
     register_matchers(ctx)
-    ok, why = ctx.coq_props(expect_min=23)
+    ok, why = ctx.coq_props(expect_min=26)
     quick = ctx.tier == "quick"
     n_docs = {"mei": 150 if quick else 3000, "kern": 150 if quick else 3000}
-    n_exp = 60 if quick else 800
+    n_exp = {"mei": 100 if quick else 1500, "kern": 60 if quick else 800}   # save_kern is ~5x slower than save_mei
     n_viol = 0
     coq_cases, coq_docs = [], []
     ppq_cases = []
     pitch_cases = {}
+    spine_cases, spine_info = [], []
     corpus = load_corpus()
     for fmt in ("mei", "kern"):
         todo = [d for d in corpus if d["fmt"] == fmt]
@@ -1689,7 +1835,10 @@ def run(ctx):
             todo.append(gen_doc(ctx.rng, fmt, w))
         for di, doc in enumerate(todo):
             loader = "load_score" if (di % 4) else ("load_mei" if fmt == "mei" else "load_kern")
-            st, obs, bad, text = check_import(doc, loader)
+            fname = DOTTED_NAMES[fmt][(di // 3) % len(DOTTED_NAMES[fmt])] if di % 3 == 1 else "doc"
+            if fname != "doc":
+                ctx.count("%s:file_name_with_several_dots" % fmt)
+            st, obs, bad, text = check_import(doc, loader, fname)
             ctx.evaluations += 1
             fs = features(doc)
             for f_ in fs:
@@ -1704,16 +1853,16 @@ def run(ctx):
                 small = doc
                 if n_viol < 6:
                     try:
-                        small = shrink_import(doc, loader, clauses)
+                        small = shrink_import(doc, loader, clauses, fname)
                     except Exception:
                         small = doc
-                st2, obs2, bad2, text2 = check_import(small, loader, "shrunk")
+                st2, obs2, bad2, text2 = check_import(small, loader, fname)
                 if not bad2:
                     small, bad2, text2 = doc, bad, text
                 res = ctx.violation("%s document loaded by %s differs from what its notation denotes [%s]: %s"
                                     % (fmt, loader, ",".join(sorted({b[0] for b in bad2})), bad2[0][1][:400]),
                                     {"dir": "import", "doc": small, "loader": loader, "clauses": sorted({b[0] for b in bad2}),
-                                     "text": text2, "mismatch": [b[1] for b in bad2[:5]]})
+                                     "file_name": fname + doc["opts"]["ext"], "text": text2, "mismatch": [b[1] for b in bad2[:5]]})
                 if res != "known":
                     n_viol += 1
                 if n_viol >= 12:
@@ -1726,6 +1875,10 @@ def run(ctx):
                 units = [doc["meter"][1]] + [m["meter"][1] for m in doc["measures"] if m.get("meter")]
                 ppq_cases.append(ctuple([clist([cz(u) for u in units]), clist([c_event(e) for e in evs]), cz(obs[0]["divs"][0])]))
             if fmt == "kern":
+                for si_, lines_ in enumerate(kern_spine_tokens(text, len(doc["staves"]))):
+                    nv_ = max([n["voice"] for n in obs[si_]["notes"]] + [0])
+                    spine_cases.append(ctuple([clist([clist([cz(c) for c in l_]) for l_ in lines_]), cz(nv_)]))
+                    spine_info.append((doc, loader, text, si_))
                 for m in doc["measures"]:
                     for st_ in m["content"]:
                         for layer in st_:
@@ -1734,6 +1887,7 @@ def run(ctx):
                                     letters = kern_pitch([p[0], None, p[2]])
                                     pitch_cases[(letters, KERN_ACC_CODE[p[1]])] = (STEPS.index(p[0]), a0(p[1]), p[2])
     # ---- correspondence with the Coq model
+    ctx.log("import direction: %d documents loaded and compared with the denotation" % len(coq_cases))
     if ok:
         try:
             failing = ctx.coq_failing("doc", "From PV Require Import Model.C19.", "", coq_cases,
@@ -1754,6 +1908,14 @@ def run(ctx):
                                  "fun c => match c with (units, evs, divs) => Z.eqb (find_ppq units evs) divs end", shard=300)
             ctx.obligation("correspondence (informational, not a property observable): Model.C19.find_ppq = the ppq inferred by load_mei on %d documents"
                            % len(ppq_cases), not f2, f2[:5])
+        if spine_cases:
+            f4 = ctx.coq_failing("spine", "From PV Require Import Model.C19.", "", spine_cases, "check_spine", shard=150)
+            ctx.obligation("correspondence: Model.C19.spine_voices (sub-spine count of parse_by_voice over the '*^' / '*v' cells of each spine) "
+                           "= number of voices load_kern gave the spine, on %d spines" % len(spine_cases), not f4, f4[:5])
+            for i in f4[:3]:
+                doc, loader, text, si_ = spine_info[i]
+                ctx.violation("kern spine %d: the number of voices loaded differs from the model's sub-spine count" % si_,
+                              {"dir": "import", "doc": doc, "loader": loader, "clauses": ["model", "voice/staff"], "text": text})
         if pitch_cases:
             items = sorted(pitch_cases.items())
             terms = [ctuple([core.cstr(k[0]), cz(k[1]), cz(v[0]), cz(v[1]), cz(v[2])]) for k, v in items]
@@ -1766,7 +1928,9 @@ def run(ctx):
     else:
         ctx.violation("proof obligations of Props/C19.v no longer check: " + why, {"theorem_or_build": why}, no_input=True)
     # ---- export direction
+    ctx.log("import correspondence evaluated in Coq")
     run_export(ctx, n_exp, ok)
+    ctx.log("export direction done")
     # ---- dispatch by extension (negative side): an unknown extension is rejected, not guessed
     import partitura as pt
     p = os.path.join(work_dir(), "x.c19unknown")
@@ -1784,7 +1948,7 @@ def run_export(ctx, n, ok):
     xcases, xdocs, scases, sinfo = [], [], [], []
     for fmt in ("mei", "kern"):
         nv = 0
-        for i in range(n):
+        for i in range(n[fmt]):
             doc = gen_xdoc(ctx.rng, fmt)
             if i % 7 == 3:
                 doc["xopts"]["fname"] = ctx.rng.choice(["export.v2", "a.b.c", "export.krn.final", "x.mei.bak"])
@@ -1818,23 +1982,21 @@ def run_export(ctx, n, ok):
                                                   cz(loaded[nid]), cz(r[1][nid][5])]))
                             sinfo.append((doc, nid))
                 continue
-            if r[0] == "err":
-                what = "save_%s / reload raised %s" % (fmt, r[1])
-                det = {"error": r[1], "clauses": ["error"]}
-            else:
-                i0, e0, g0 = bad[0]
-                what = ("save_%s then load_score changed notes [%s]: %d before / %d after, %d differ; first: %s before %s, after %s "
-                        "(voices per staff %s)" % (fmt, ",".join(diff_clause(bad)), len(r[1]), len(r[2]), len(bad),
-                                                   "note %s" % i0 if i0 else "", fmt_xrow(e0), "; ".join(fmt_xrow(x) for x in (g0 or [])) or "none",
-                                                   doc["voices"]))
-                det = {"clauses": diff_clause(bad), "differences": [[i_, fmt_xrow(e_), [fmt_xrow(x) for x in (g_ or [])]] for i_, e_, g_ in bad[:6]],
-                       "file": r[3]}
-            small = shrink_export(doc, fmt) if nv < 3 else doc
+            small = shrink_export(doc, fmt) if (nv < 3 and not (fmt == "kern" and (has_grace(doc) or not kern_gaps_ok(doc)))) else doc
+            if small is not doc:
+                r2 = export_roundtrip(small, fmt)
+                if r2[0] == "err" or (r2[0] == "ok" and export_diff(fmt, r2[1], r2[2])):
+                    r = r2
+                    bad = export_diff(fmt, r[1], r[2]) if r[0] == "ok" else None
+                else:
+                    small = doc
+            what, det = describe_export_failure(small, fmt, r, bad)
             res = ctx.violation(what[:700], dict({"dir": "export", "fmt": fmt, "doc": small, "interior_gap": interior_gap(small)}, **det))
             if res != "known":
                 nv += 1
             if nv >= 6:
                 break
+    ctx.log("export: %d parts saved and reloaded" % sum(n.values()))
     if not ok:
         return
     if xcases:
@@ -1857,6 +2019,19 @@ def run_export(ctx, n, ok):
 
 def coptz(x):
     return "(@None Z)" if x is None else "(Some %s)" % cz(int(x))
+
+
+def describe_export_failure(doc, fmt, r, bad):
+    if r[0] == "err":
+        return "save_%s / reload raised %s" % (fmt, r[1]), {"error": r[1], "clauses": ["error"]}
+    i0, e0, g0 = bad[0]
+    what = ("save_%s then load_score changed notes [%s]: %d before / %d after, %d differ; first: %s before %s, after %s "
+            "(voices per staff %s)" % (fmt, ",".join(diff_clause(bad)), len(r[1]), len(r[2]), len(bad),
+                                       "note %s" % i0 if i0 else "", fmt_xrow(e0), "; ".join(fmt_xrow(x) for x in (g0 or [])) or "none",
+                                       doc["voices"]))
+    det = {"clauses": diff_clause(bad), "differences": [[i_, fmt_xrow(e_), [fmt_xrow(x) for x in (g_ or [])]] for i_, e_, g_ in bad[:6]],
+           "file": r[3]}
+    return what, det
 
 
 def c_xcase(doc, fmt, loaded):
@@ -1997,7 +2172,11 @@ def replay(obj):
     r = obj.get("replay", obj)
     print(json.dumps({k: v for k, v in r.items() if k not in ("text", "file")}, indent=1, default=str)[:6000])
     if r.get("dir") == "import":
-        st, obs, bad, text = check_import(r["doc"], r.get("loader", "load_score"), "replay")
+        fn = r.get("file_name") or "replay"
+        for e_ in (".mei", ".krn", ".kern"):
+            if fn.endswith(e_):
+                fn = fn[:-len(e_)]
+        st, obs, bad, text = check_import(r["doc"], r.get("loader", "load_score"), fn)
         print("---- file written by the harness writer:\n" + text)
         print("---- loaded:", st if st == "ok" else obs)
         if st == "ok":
